@@ -103,19 +103,15 @@ where
                 let mut ret = Ordering::Equal;
                 for (order, rev) in q.order_by() {
                     if *rev {
-                        ret = ret.then(
-                            b.get(order)
-                                .unwrap()
-                                .to_string()
-                                .cmp(&a.get(order).unwrap().to_string()),
-                        );
+                        ret = ret.then(cmp_value(
+                            b.get(order).unwrap(),
+                            a.get(order).unwrap(),
+                        ));
                     } else {
-                        ret = ret.then(
-                            a.get(order)
-                                .unwrap()
-                                .to_string()
-                                .cmp(&b.get(order).unwrap().to_string()),
-                        );
+                        ret = ret.then(cmp_value(
+                            a.get(order).unwrap(),
+                            b.get(order).unwrap(),
+                        ));
                     }
                 }
 
@@ -245,6 +241,19 @@ impl Expr {
             }
         }
     }
+}
+
+/// the order of two field values: numbers numerically, everything else by its JSON text
+fn cmp_value(l: &JsonValue, r: &JsonValue) -> Ordering {
+    if let (JsonValue::Number(v1), JsonValue::Number(v2)) = (l, r) {
+        if let (Some(v1), Some(v2)) = (v1.as_i64(), v2.as_i64()) {
+            return v1.cmp(&v2);
+        }
+        if let (Some(v1), Some(v2)) = (v1.as_f64(), v2.as_f64()) {
+            return v1.partial_cmp(&v2).unwrap_or(Ordering::Equal);
+        }
+    }
+    l.to_string().cmp(&r.to_string())
 }
 
 fn map_to_model<T>(map: &HashMap<String, JsonValue>) -> Result<T>
